@@ -79,6 +79,9 @@ USES = {
     "spawn": "let h = std::thread::spawn(move || { while let Some(x) = it.next() { sink(x); } }); h.join().unwrap();",
 }
 
+# moving the iterator itself to another thread (its destructor then destroys the remaining elements there)
+USES["spawn_drop"] = "let h = std::thread::spawn(move || { let moved = it; drop(moved); }); h.join().unwrap();"
+
 BOUND_ERRORS = {"E0277", "E0599", "E0308", "E0282", "E0283"}
 BORROW_ERRORS = {"E0499", "E0502", "E0505", "E0597", "E0716", "E0506", "E0515", "E0521", "E0373", "E0503"}
 
